@@ -271,7 +271,7 @@ CHECKS['C15']['text'] = (
 # ---- round-6 texts ---------------------------------------------------------------------------------------------------
 CHECKS['C13']['text'] = CHECKS['C13']['text'].replace(
     'from_vector error <= sqrt(L tol) (13 theorems;',
-    'from_vector error <= sqrt(L tol); after the repair of F12 (zero vector) from_vector returns for EVERY vector and tolerance and is exact at tol 0 '
+    'from_vector error <= sqrt(L tol); after the repair of F12 (zero vector) from_vector returns for EVERY vector (0 <= tol < 1) and is exact at tol 0 '
     '(from_vector_total, from_vector_tol0_total) (15 theorems;')
 CHECKS['C03']['text'] = CHECKS['C03']['text'].replace(
     'positive bonds (25 theorems).',
